@@ -17,13 +17,21 @@ type recHook struct {
 	shutdowns int32
 	active    int32 // Send/Recv in progress
 	useAfter  int32
-	badShut   int32 // Shutdown while a call is in progress
+	badShut   int32         // Shutdown while a call is in progress
+	entered   int32         // calls that reached the hook
+	gate      chan struct{} // when non-nil, a Send marked "blocking" waits here until the script ends the call
 }
+
+type blockingKey struct{}
 
 func (h *recHook) Send(ctx context.Context, s capnp.Send) (*capnp.Answer, capnp.ReleaseFunc) {
 	atomic.AddInt32(&h.active, 1)
 	if atomic.LoadInt32(&h.shutdowns) > 0 {
 		atomic.StoreInt32(&h.useAfter, 1)
+	}
+	atomic.AddInt32(&h.entered, 1)
+	if h.gate != nil && ctx.Value(blockingKey{}) != nil {
+		<-h.gate
 	}
 	atomic.AddInt32(&h.active, -1)
 	return capnp.ErrorAnswer(s.Method, errMark), func() {}
@@ -73,7 +81,60 @@ func callResult(c *capnp.Client) string {
 // execCapScript: "cap script <op,op,...>": a sequential script over the handles of a promised client p and
 // of the capability t it may be fulfilled with.  After every op the Shutdown counters are reported.
 func execCapScript(script string) string {
-	ht, hp := &recHook{}, &recHook{}
+	ht, hp := &recHook{gate: make(chan struct{})}, &recHook{gate: make(chan struct{})}
+	type flight struct {
+		h    *recHook
+		done chan struct{}
+	}
+	var inflight []flight
+	var weak *capnp.WeakClient
+	var parked []chan struct{} // Release / Fulfill calls that did not return yet
+	// settle waits for background operations that can finish to finish
+	settle := func() {
+		time.Sleep(2 * time.Millisecond)
+		for i := 0; i < len(parked); {
+			select {
+			case <-parked[i]:
+				parked = append(parked[:i], parked[i+1:]...)
+			default:
+				i++
+			}
+		}
+	}
+	// bg runs f; if it does not return promptly it is remembered as parked
+	bg := func(f func()) string {
+		ch := make(chan struct{})
+		go func() { f(); close(ch) }()
+		select {
+		case <-ch:
+			return "-"
+		case <-time.After(30 * time.Millisecond):
+			parked = append(parked, ch)
+			return "parked"
+		}
+	}
+	begin := func(c *capnp.Client, h *recHook) string {
+		before := atomic.LoadInt32(&ht.entered) + atomic.LoadInt32(&hp.entered)
+		fl := flight{done: make(chan struct{})}
+		go func() {
+			c.SendCall(context.WithValue(context.Background(), blockingKey{}, true), capnp.Send{})
+			close(fl.done)
+		}()
+		for i := 0; i < 2000; i++ {
+			if atomic.LoadInt32(&ht.entered)+atomic.LoadInt32(&hp.entered) > before {
+				break
+			}
+			select {
+			case <-fl.done: // error answer: the call never reached a hook
+				return "nohook"
+			default:
+			}
+			time.Sleep(50 * time.Microsecond)
+		}
+		fl.h = h
+		inflight = append(inflight, fl)
+		return "-"
+	}
 	ct := capnp.NewClient(ht)
 	cp, prom := capnp.NewPromisedClient(hp)
 	poolT := []*capnp.Client{ct}
@@ -123,13 +184,52 @@ func execCapScript(script string) string {
 				res = "skip"
 				break
 			}
-			pop(&poolT).Release()
+			c := pop(&poolT)
+			res = bg(c.Release)
 		case "relP":
 			if len(poolP) == 0 {
 				res = "skip"
 				break
 			}
-			pop(&poolP).Release()
+			c := pop(&poolP)
+			res = bg(c.Release)
+		case "beginT":
+			if len(poolT) == 0 {
+				res = "skip"
+				break
+			}
+			res = begin(poolT[len(poolT)-1], ht)
+		case "beginP":
+			if len(poolP) == 0 || resolved { // (after resolution the call would go to t: use beginT)
+				res = "skip"
+				break
+			}
+			res = begin(poolP[len(poolP)-1], hp)
+		case "end":
+			if len(inflight) == 0 {
+				res = "skip"
+				break
+			}
+			fl := inflight[0]
+			inflight = inflight[1:]
+			fl.h.gate <- struct{}{}
+			<-fl.done
+		case "mkweakT":
+			if len(poolT) == 0 {
+				res = "skip"
+				break
+			}
+			weak = poolT[len(poolT)-1].WeakRef()
+		case "upT":
+			if weak == nil {
+				res = "skip"
+				break
+			}
+			if c, ok := weak.AddRef(); ok && c != nil {
+				poolT = append(poolT, c)
+			} else {
+				res = "gone"
+			}
 		case "callT":
 			if len(poolT) == 0 {
 				res = "skip"
@@ -164,19 +264,33 @@ func execCapScript(script string) string {
 				res = "skip"
 				break
 			}
-			prom.Fulfill(poolT[len(poolT)-1])
+			tc := poolT[len(poolT)-1]
+			res = bg(func() { prom.Fulfill(tc) })
 			resolved = true
 		case "fulfillNil":
 			if resolved {
 				res = "skip"
 				break
 			}
-			prom.Fulfill(nil)
+			res = bg(func() { prom.Fulfill(nil) })
 			resolved, toNil = true, true
 		default:
 			res = "bad-op"
 		}
+		settle()
 		out = append(out, op+":"+res+":t"+strconv.Itoa(int(atomic.LoadInt32(&ht.shutdowns)))+"p"+strconv.Itoa(int(atomic.LoadInt32(&hp.shutdowns))))
+	}
+	// let everything finish: end the calls still in flight
+	for _, fl := range inflight {
+		fl.h.gate <- struct{}{}
+		<-fl.done
+	}
+	for _, ch := range parked {
+		select {
+		case <-ch:
+		case <-time.After(2 * time.Second):
+			out = append(out, "never-returned")
+		}
 	}
 	if ht.useAfter+hp.useAfter+ht.badShut+hp.badShut > 0 {
 		out = append(out, "use-after-shutdown")
@@ -321,21 +435,65 @@ func execCap(t []string) string {
 		return execCapScript(t[1])
 	case len(t) == 1 && t[0] == "window":
 		return execCapWindow()
+	case len(t) == 1 && t[0] == "chain":
+		return execCapChain()
 	case len(t) == 4 && t[0] == "stress":
 		return execCapStress(t[1:])
 	}
 	return "bad-op"
 }
 
-var capOps = []string{"addT", "addP", "relT", "relP", "callT", "callP", "weakT", "fulfill", "fulfillNil"}
+var capOps = []string{"addT", "addP", "relT", "relP", "callT", "callP", "weakT", "fulfill", "fulfillNil",
+	"beginT", "beginP", "end", "end", "mkweakT", "upT"}
+
+// execCapChain: a two-level promise chain, fulfilled inside-out with no operation on the middle client in
+// between; the references of the outer promise must end up on the capability at the end of the chain.
+func execCapChain() string {
+	hb, h1, h2 := &recHook{}, &recHook{}, &recHook{}
+	cb := capnp.NewClient(hb)
+	c2, pr2 := capnp.NewPromisedClient(h2)
+	c1, pr1 := capnp.NewPromisedClient(h1)
+	pr2.Fulfill(cb)
+	pr1.Fulfill(c2)
+	c1.Release()
+	c2.Release()
+	if n := atomic.LoadInt32(&hb.shutdowns); n != 0 {
+		return "violation: end of chain shut down " + strconv.Itoa(int(n)) + "x while a client still refers to it"
+	}
+	if callResult(cb) != "hook" {
+		return "violation: call on the remaining client did not reach the capability"
+	}
+	cb.Release()
+	if hb.shutdowns != 1 || h1.shutdowns != 1 || h2.shutdowns != 1 {
+		return "violation: shutdown counts " + strconv.Itoa(int(hb.shutdowns)) + "," + strconv.Itoa(int(h1.shutdowns)) + "," + strconv.Itoa(int(h2.shutdowns))
+	}
+	return "ok"
+}
 
 func genC10(rec *lib.Rec, r *lib.Rng, thorough bool) {
 	if Shard == 0 {
 		rec.Op("S", "cap window", true)
+		rec.Op("S", "cap chain", true)
+		// directed scripts on the side conditions of the invariant: last reference released while calls are in
+		// flight (one, two), weak upgrade in that window, Fulfill with calls in flight, release after Fulfill(nil)
+		for _, sc := range []string{
+			"mkweakT,beginT,relT,upT,end,relT",
+			"mkweakT,beginT,beginT,relT,end,upT,end,upT",
+			"beginT,beginT,relT,end,end",
+			"beginP,beginP,relP,end,end,relT",
+			"beginP,fulfill,end,relP,relT",
+			"beginP,beginP,fulfill,end,relP,end,relT,relT",
+			"addP,beginP,fulfillNil,relP,end,relP,relT",
+			"beginP,relP,fulfill,end,relT",
+			"addP,fulfill,relP,relP,mkweakT,relT,upT",
+			"mkweakT,relT,upT,fulfill",
+		} {
+			rec.Op("M", "cap script "+sc, true)
+		}
 	}
-	n := 1500
+	n := 800
 	if thorough {
-		n = 100000
+		n = 60000
 	}
 	n /= Shards
 	for i := 0; i < n; i++ {
